@@ -14,7 +14,8 @@ from pgv.core import Fail
 ID = "C10"
 LEVEL = "exploration"
 RULE = ("Hypothesis RuleBasedStateMachine over one site (/, /a, /b, /a/c): rules create / delete / rename files, edit "
-        ".names, .cap and .abstract sidecars, advance the clock (all cache files are aged with os.utime, ages kept >= 3 s "
+        ".names, .cap and .abstract sidecars, grow a file in place, advance the clock (either the server's clock is shifted "
+        "ahead or all cache files are aged with os.utime, ages kept >= 3 s "
         "away from the lifetime), and list a directory through a generated protocol form. Model: per directory (age, "
         "snapshot); a listing is a hit iff a cache exists and age < lifetime (age NOT reset by a hit), and must then "
         "equal the snapshot rendered in the requesting protocol, otherwise the fresh listing; both renderings come "
@@ -64,12 +65,39 @@ class CacheWorld:
         self.base, self.root = world.build(self.INITIAL, "c10")
         self.cfg = drive.make_config(self.root, "shipped", **{"handlers.dir.DirHandler::cachetime": str(lifetime)})
         self.cache = {}  # dirsel -> {"age": int, "snap": path, "writer": form, "mutated": bool, "hits": n}
+        # second way of letting time pass: the server's clock (time.time as seen by handlers/dir.py) runs `offset` seconds
+        # ahead; cache files the server writes meanwhile get their mtime moved ahead by the same amount
+        self.offset = 0
+        self.cf_mtime = {}
+        import pygopherd.handlers.dir as hdir
+        self._hdir, self._realtime = hdir, hdir.time
+        world_ = self
+
+        class _Clock:
+            def time(self):
+                return world_._realtime.time() + world_.offset
+
+            def __getattr__(self, n):
+                return getattr(world_._realtime, n)
+        hdir.time = _Clock()
         self.nsnap = 0
         self.steps = []
         self.flags = {"hit_after_mutation": False, "cross_protocol_hit": False, "expiry_after_hit": False}
 
     def close(self):
+        self._hdir.time = self._realtime
         world.rmtree(self.base)
+
+    def _sync_cache_mtimes(self):
+        """cache files the server has just written carry the real clock's time: move them onto the server's clock"""
+        for dp, dn, fn in os.walk(self.root):
+            if ".cache.pygopherd.dir" in fn:
+                cf = os.path.join(dp, ".cache.pygopherd.dir")
+                st_ = os.stat(cf)
+                if self.cf_mtime.get(cf) != st_.st_mtime:
+                    if self.offset:
+                        os.utime(cf, (st_.st_atime, st_.st_mtime + self.offset))
+                    self.cf_mtime[cf] = os.stat(cf).st_mtime
 
     def _dirpath(self, dsel):
         return os.path.join(self.root, dsel.strip("/")) if dsel != "/" else self.root
@@ -136,23 +164,36 @@ class CacheWorld:
                 with open(os.path.join(p, fs[step["idx"] % len(fs)] + ".abstract"), "w") as f:
                     f.write(step["title"] + "\n")
                 self._mut(d)
+        elif op == "grow":
+            fs = self.files(d)
+            if fs:
+                with open(os.path.join(p, fs[step["idx"] % len(fs)]), "a") as f:
+                    f.write("x" * step["n"])
+                self._mut(d)
         elif op == "advance":
             dt = step["dt"]
             # keep every age >= 3 s away from the lifetime (integer mtimes, real milliseconds elapse)
             while any(abs(c["age"] + dt - self.lifetime) < 4 for c in self.cache.values()):
                 dt += 9
+            if step.get("how") == "shift":
+                self.offset += dt
             for dsel, c in self.cache.items():
                 cf = os.path.join(self._dirpath(dsel), ".cache.pygopherd.dir")
-                if os.path.exists(cf):
+                if os.path.exists(cf) and step.get("how") != "shift":
                     st_ = os.stat(cf)
                     os.utime(cf, (st_.st_atime - dt, st_.st_mtime - dt))
+                    self.cf_mtime[cf] = os.stat(cf).st_mtime
                 c["age"] += dt
         elif op == "list":
-            return self._list(d, step["form"])
+            try:
+                return self._list(d, step["form"])
+            finally:
+                self._sync_cache_mtimes()
         elif op == "peek":
             # a request that looks at the directory without listing it (HTTP HEAD, Gopher+ item info): it must not
             # leave a cache entry behind (nothing was rendered) nor disturb an existing one
             r = drive.serve(self.cfg, clients.encode(step["form"], d.encode()), tls=clients.FORMS[step["form"]][0])
+            self._sync_cache_mtimes()
             if r.escaped is not None or r.exception_classes():
                 return [Fail("peek-error", "%s on %s raised %r" % (step["form"], d, r.logs[-1:]))]
         return []
@@ -282,9 +323,28 @@ class CacheMachine(RuleBasedStateMachine):
         self._do({"op": "peek", "dir": d, "form": form})
         self._do({"op": "list", "dir": d, "form": lf})
 
-    @rule(dt=st.sampled_from([1, 30, 200, 450, 600, 990, 1010, 2500, 86400 - 20, 86400 + 30, 2 * 86400 + 500, 7 * 86400 + 5]))
-    def advance(self, dt):
-        self._do({"op": "advance", "dt": dt})
+    @rule(dt=st.sampled_from([1, 30, 200, 450, 600, 990, 1010, 2500, 86400 - 20, 86400 + 30, 2 * 86400 + 500, 7 * 86400 + 5]),
+          how=st.sampled_from(["utime", "shift"]))
+    def advance(self, dt, how):
+        self._do({"op": "advance", "dt": dt, "how": how})
+
+    @rule(d=st.sampled_from(DIRS), f1=st.sampled_from(FORMS), f2=st.sampled_from(["gdollar", "gopher", "http", "gemini"]),
+          t1=title_st, t2=title_st, idx=st.integers(0, 5), dt=st.sampled_from([1010, 2500, 86400 + 30]),
+          edit=st.sampled_from(["names", "grow", "cap"]), how=st.sampled_from(["shift", "shift", "utime"]))
+    def inplace_cycle(self, d, f1, f2, t1, t2, idx, dt, edit, how):
+        """an edit that leaves the directory's own mtime alone (a link file rewritten, a file grown, a .cap file rewritten),
+        then the lifetime passes: the next listing must show it"""
+        self._do({"op": "names", "dir": d, "idx": idx, "title": t1, "override": True, "newlink": False, "numb": 0})
+        self._do({"op": "cap", "dir": d, "idx": idx + 1, "title": t1})
+        self._do({"op": "list", "dir": d, "form": f1})
+        if edit == "names":
+            self._do({"op": "names", "dir": d, "idx": idx, "title": t2, "override": True, "newlink": False, "numb": 0})
+        elif edit == "cap":
+            self._do({"op": "cap", "dir": d, "idx": idx + 1, "title": t2})
+        else:
+            self._do({"op": "grow", "dir": d, "idx": idx, "n": 5000})
+        self._do({"op": "advance", "dt": dt, "how": how})
+        self._do({"op": "list", "dir": d, "form": f2})
 
     @rule(d=st.sampled_from(DIRS), form=st.sampled_from(FORMS))
     def list_a(self, d, form):
@@ -299,14 +359,14 @@ class CacheMachine(RuleBasedStateMachine):
         self._do({"op": "list", "dir": d, "form": form})
 
     @rule(d=st.sampled_from(DIRS), f1=st.sampled_from(FORMS), f2=st.sampled_from(FORMS), f3=st.sampled_from(FORMS),
-          dt1=st.sampled_from([300, 600, 900, 86400 + 30]), dt2=st.sampled_from([200, 600, 990, 3 * 86400 + 100]), name=name_st)
-    def age_cycle(self, d, f1, f2, f3, dt1, dt2, name):
+          dt1=st.sampled_from([300, 600, 900, 86400 + 30]), dt2=st.sampled_from([200, 600, 990, 3 * 86400 + 100]), name=name_st, how=st.sampled_from(["utime", "shift"]))
+    def age_cycle(self, d, f1, f2, f3, dt1, dt2, name, how):
         """write - age - (mutate) - read - age - read: the shape on which 'a hit refreshes the age' would show"""
         self._do({"op": "list", "dir": d, "form": f1})
-        self._do({"op": "advance", "dt": dt1})
+        self._do({"op": "advance", "dt": dt1, "how": how})
         self._do({"op": "create", "dir": d, "name": name})
         self._do({"op": "list", "dir": d, "form": f2})
-        self._do({"op": "advance", "dt": dt2})
+        self._do({"op": "advance", "dt": dt2, "how": how})
         self._do({"op": "list", "dir": d, "form": f3})
 
 
